@@ -7,21 +7,34 @@ python3 - <<'PY'
 import sys
 sys.path.insert(0, "lib")
 import vlib
+# 1. whole-tree audit: no Admitted/admit/Axiom/Parameter/... anywhere in the development
+n, hits = vlib.audit()
+print("audit: %d files, %d hits" % (n, len(hits)))
+for h in hits:
+    print("  " + h)
+if hits:
+    sys.exit(1)
+# 2. full .vo build of every file (coq_makefile + make -j16; never -vos/-vok)
 vlib.coq_makefile()
-rc, out, secs = vlib.coq_build([], timeout=5400)   # full .vo build of every file
+rc, out, secs = vlib.coq_build([], timeout=7200)
 print(out[-3000:])
 print("coq build rc=%d in %.0fs" % (rc, secs))
 if rc != 0:
     sys.exit(1)
 PY
-# warm the Go build cache with one harness (the rest build on demand, incrementally)
+# 3. warm the Go build cache and the extracted models of the claimed checks (they rebuild on demand anyway)
 python3 - <<'PY'
-import sys
+import sys, os, re
 sys.path.insert(0, "lib")
 import vlib
-try:
-    print(vlib.build_harness("c14"))
-except Exception as e:
-    print("harness warm-up failed:", e)
+for hid in sorted(os.listdir(os.path.join(vlib.VERIF, "harness"))):
+    if hid == "common" or not os.path.isdir(os.path.join(vlib.VERIF, "harness", hid)):
+        continue
+    try:
+        # shims are declared by the check modules; a plain build is enough to warm the cache
+        vlib.build_harness(hid)
+        print("harness", hid, "ok")
+    except Exception as e:
+        print("harness", hid, "warm-up skipped:", str(e)[:200])
 PY
 echo setup done
